@@ -24,6 +24,7 @@ RULE = ('codes generated from the syntax tree of PAT_EVENT_CODE (all alternative
 ASSUMPTIONS = ['only comparisons whose expected direction is unambiguous are asserted (same suffix, same number of legs; bare '
                'SC/SH/LH/nMT only for totality)',
                'event_code_to_kind is only required to be total on the four families it names; elsewhere it may raise ValueError']
+RULE = RULE + '; codes also with the trailing newline the pattern admits and with non-ASCII decimal digits'
 
 TEST_CODES = set('100 200 400 800 1500 5000 10000 110H 100H 400H 3000SC 4x100 4x400 HJ PV LJ TJ SP DT HT JT MAR HM XC MILE '
                  '5K 5M 440Y 3000W 3KW T26 4xRELAY 4xDMR 4xSMR 4xSWR 6x5000 6x5K 6x3M DEC HEP PEN'.split())
